@@ -2372,7 +2372,10 @@ def run(tier: str, seed: int, replay: str | None = None) -> int:
              "abbreviations with labels shared between comments / wide-indented / starting with a code block / "
              "`Word: text` after the header) x type extension, generic bindings, interface blocks with bodies x display "
              "x declarations with character literals holding comment look-alikes (one line / continued inside a literal, "
-             "mixed quote characters) x parts of the text moved into (nested) include files; "
+             "mixed quote characters) x parts of the text moved into (nested) include files "
+             "x several `;`-separated declarations on one line (comment inline at the end / on the following lines / alt "
+             "block, trailing `;`, dummy arguments) x derived types local to procedures (entities without URL); per "
+             "converted entity also the summary rule (doc, URL, summary metadata -> meta.summary) and the summary oracle; "
              "counted: distinct (entity, tracer sequence, doc features, file) tuples whose entity has a non-empty doc comment",
         samples=samples,
         traces_validated_against_impl=ev_micro + n_cases + n_pipe,
@@ -2398,6 +2401,11 @@ def run(tier: str, seed: int, replay: str | None = None) -> int:
         "a statement continued over several lines carries no inline comment on its last line (on a line that starts "
         "inside a continued literal the reader keeps a trailing comment as code: C02's known finding); include files "
         "hold whole entities with their comments, never a part of a comment block or of a continued statement",
+        "the summary model starts at the HTML that Markdown returned (entity.doc and the converted `summary:` value are "
+        "inputs); str.strip is modelled for ASCII white space; a doc that contains a TAB is not sent to the model",
+        "a line of several `;`-separated statements is only documented by comments that FOLLOW it (they belong to the "
+        "last statement); a preceding block in front of such a line is not generated (undocumented which statement it "
+        "would document)",
         "one source file per project: conversion order across files, type extension across modules of different "
         "files and external entities (`external_url`, the only skip attribute of markdownable_items) are not generated",
         "the entity-tree walk uses the harness's own list of child collections (CHILD_ATTRS); the HTML pages "
